@@ -112,6 +112,29 @@ pub fn explore(ctx: &Ctx) {
         sites.push(Site::new(lat, lon, 0.0, gmt));
     }
     sites.extend(off_lattice_sites(quick, 60.0));
+    // interval-defined Fajr/Isha whose (unused) twilight angle is set as well, where that angle is not
+    // reached: the time is Shurooq - interval / Maghrib + interval all the same - valid, unflagged, in order
+    let mut ji = vec![];
+    for &lat in &[50.0, 55.0, -55.0, 60.0] {
+        for &ang in &[9.0, 18.0, 21.0] {
+            for m in [Method::UmmAlQurra, Method::FixedIsha] {
+                let mut p = params_conv(m);
+                p.angles.insert(Prayer::Isha, ang);
+                ji.push((Site::new(lat, 25.0, 0.0, 2.0), p));
+            }
+            let mut p = params_conv(Method::Mwl);
+            p.intervals.insert(Prayer::Fajr, 75.0);
+            p.angles.insert(Prayer::Fajr, ang);
+            ji.push((Site::new(lat, 25.0, 0.0, 2.0), p));
+        }
+    }
+    let yi = dates_of_years(if quick { &[2023] } else { &[1600, 2023, 2024, 2399] });
+    ctx.alphabet("interval_methods_with_their_unused_angle_set", json!({"jobs": ji.len(), "angles": [9, 18, 21], "lats": [50, 55, -55, 60], "dates": yi.len()}));
+    par_jobs(ctx, &ji, |(site, p), l| {
+        for &d in &yi {
+            judge(ctx, l, p, *site, d, false);
+        }
+    });
     // the validity frontier of Fajr/Isha in the twilight angle, to the last bit (see common::angle_frontier)
     let fc = angle_frontier_cases(quick);
     ctx.alphabet("angle_frontier", json!({"site_dates": fc.len(), "prayers": ["Fajr", "Isha"], "exempt": "a time within 2 s of lower culmination (12 h from Dhuhr)"}));
